@@ -241,7 +241,13 @@ def check_query(acc: Acc, root, dump, uni, select: str, kinds: str, prios, group
                 # an EMPTY property value ('  * owner::') is printed as an empty line, which the output parser cannot
                 # tell from spacing: such an entry is counted by count(.) but invisible in the parsed base listing
                 n_empty = 1 if (inner.startswith("prop:") and any("" in values_of(byz[zz], inner) for zz in zs)) else 0
-                if len(lines) == 1 and lines[0].isdigit() and n_empty and int(lines[0]) == want_n + n_empty:
+                if n_empty:
+                    # ... so for such groups the count is judged against the index instead: number of distinct values, '' included
+                    distinct_vals = set()
+                    for zz in zs:
+                        distinct_vals.update(values_of(byz[zz], inner))
+                    if len(lines) != 1 or not lines[0].isdigit() or int(lines[0]) != len(distinct_vals):
+                        acc.violation(f"{text!r}: group {lab} prints {lines} but its notes carry {len(distinct_vals)} distinct values of {inner!r} (one of them empty)", case, cls="count(x) != number of distinct values (empty value present)")
                     continue
                 if len(lines) != 1 or not lines[0].isdigit() or int(lines[0]) != want_n:
                     acc.violation(f"{text!r}: group {lab} prints {lines} but selecting {inner!r} yields {want_n} entries", case, cls="count(x) != number of entries of S x")
